@@ -179,12 +179,28 @@ class Api:
             raise InputMutated("scale_vector returned its argument object")
         return list(out.components)
 
+    HOWS = ["expr", "lambda", "stored", "callable_object", "partial"]
+
     def field(self, a, expr_of_scalars, how="expr"):
-        """a field in system a whose value is expr_of_scalars(q1, q2, q3)"""
+        """a field in system a whose value is expr_of_scalars(q1, q2, q3), built in every way the API offers:
+        from_expression / a lambda of the point / ScalarField(expr, system) holding a STORED expression in the base scalars /
+        an object with __call__ / a functools.partial"""
         s = self.sys[a]
+        bs = s.coord_system.base_scalars()
+        by_point = lambda p: expr_of_scalars(p.coordinate(0), p.coordinate(1), p.coordinate(2))
         if how == "expr":
-            return self.ScalarField.from_expression(expr_of_scalars(*s.coord_system.base_scalars()), s)
-        return self.ScalarField(lambda p: expr_of_scalars(p.coordinate(0), p.coordinate(1), p.coordinate(2)), s)
+            return self.ScalarField.from_expression(expr_of_scalars(*bs), s)
+        if how == "stored":
+            return self.ScalarField(expr_of_scalars(*bs), s)
+        if how == "callable_object":
+            class PointFunction:
+                def __call__(self, p):
+                    return by_point(p)
+            return self.ScalarField(PointFunction(), s)
+        if how == "partial":
+            import functools  # pylint: disable=import-outside-toplevel
+            return self.ScalarField(functools.partial(lambda scale, p: scale * by_point(p), 1), s)
+        return self.ScalarField(by_point, s)
 
     def field_rebased_at(self, a, b, expr_of_scalars, coords, how="expr", via="point"):
         """value at the point with coordinates `coords` (in system b) of the field rebased from a to b"""
@@ -303,6 +319,7 @@ def dress(rng, vals):
 
 
 FIELDS = {
+    "const": lambda a, b, c: sp.Integer(7),
     "poly": lambda a, b, c: a * b + c**2 - 2 * a,
     "trig": lambda a, b, c: sp.sin(a) * c + sp.cos(b),
     "mixed": lambda a, b, c: a**2 * sp.exp(-c) + 3 * b,
@@ -411,7 +428,7 @@ def _spec_checks(api):
             # the physical point is chosen through its coordinates in the curvilinear system (inside the domain)
             s = a if a != 0 else b
             return {"point_in": s, "coords": list(gen_point(rng, s)), "field": rng.choice(sorted(FIELDS)),
-                    "how": rng.choice(["expr", "lambda"]), "via": rng.choice(["point", "basis"]),
+                    "how": rng.choice(Api.HOWS), "via": rng.choice(["point", "basis"]),
                     "dress": rng.choice(["float", "Float", "Rational"])}
 
         def pred(inp):
@@ -419,9 +436,10 @@ def _spec_checks(api):
             pa = inp["coords"] if inp["point_in"] == a else list(m_from_cart(a, cart))
             pb = inp["coords"] if inp["point_in"] == b else list(m_from_cart(b, cart))
             f = FIELDS[inp["field"]]
-            old = num(api.field_at(a, f, _dress(pa, inp["dress"]), inp["how"]))
-            new = num(api.field_rebased_at(a, b, f, _dress(pb, inp["dress"]), inp["how"], inp["via"]))
             want = num(f(*[sp.Float(v) for v in pa]))
+            # a STORED expression is returned as is by __call__ (by design); only its rebased value can be judged
+            old = want if inp["how"] == "stored" else num(api.field_at(a, f, _dress(pa, inp["dress"]), inp["how"]))
+            new = num(api.field_rebased_at(a, b, f, _dress(pb, inp["dress"]), inp["how"], inp["via"]))
             return close([old, new], [want, want]), {"old_field_at_old_coords": old, "new_field_at_new_coords": new, "old_coords": pa, "new_coords": pb}, \
                 {"value": want}
         return gen, pred
@@ -445,13 +463,40 @@ def _spec_checks(api):
     for a in range(3):
         checks[f"field_shortpoint_{LOW[SYSN[a]]}"] = short_point_check(a)
 
+    # ---- arithmetic on curvilinear vectors of every component count 0..3, negative / zero / positive scalars ----------
+    def arith_short(s):
+        def gen(rng):
+            return {"u": list(gen_point(rng, s))[:rng.randrange(4)], "w": list(gen_point(rng, s))[:rng.choice([3, 3, 2, 1])],
+                    "k": rng.choice([away(rng), -rnd(rng, 0.2, 3.0), -3, 0, 2, -2.5]), "dress": rng.choice(["float", "Float", "Rational"])}
+
+        def pred(inp):
+            pad3 = lambda xs: list(xs) + [0.0] * (3 - len(xs))
+            kf = float(inp["k"])
+            k = inp["k"] if not isinstance(inp["k"], float) else _dress([inp["k"]], inp["dress"])[0]
+            u, w = _dress(inp["u"], inp["dress"]), _dress(inp["w"], inp["dress"])
+            cu, cw = m_to_cart(s, pad3(inp["u"])), m_to_cart(s, pad3(inp["w"]))
+            scaled = api.scale(s, k, u)
+            got = {"scaled": [num(e) for e in scaled],
+                   "scaled_then_rebased": pad3([num(e) for e in api.rebase(s, 0, scaled)]),
+                   "dot(scaled,w)": num(api.dot(s, scaled, w)), "dot(u,w)": num(api.dot(s, u, w)),
+                   "magnitude(scaled)": num(api.mag(s, scaled))}
+            want = {"scaled_then_rebased": [kf * c for c in cu], "dot(scaled,w)": kf * m_dot_cart(cu, cw), "dot(u,w)": m_dot_cart(cu, cw),
+                    "magnitude(scaled)": abs(kf) * math.sqrt(m_dot_cart(cu, cu))}
+            ok = close(got["scaled_then_rebased"], want["scaled_then_rebased"]) and \
+                close([got[x] for x in ("dot(scaled,w)", "dot(u,w)", "magnitude(scaled)")], [want[x] for x in ("dot(scaled,w)", "dot(u,w)", "magnitude(scaled)")])
+            return ok, got, want
+        return gen, pred
+
+    for s in (1, 2):
+        checks[f"arith_short_{LOW[SYSN[s]]}"] = arith_short(s)
+
     # ---- graphs of systems: a frame rotated with coordinates_rotate, and curvilinear children of both frames -----------
     def gen_graph(s, with_field=False):
         def gen(rng):
             inp = {"axis": rng.choice(Api.AXES), "angle": rnd(rng, 0.3, 2.8) * rng.choice([1, -1]), "coords": list(gen_point(rng, s)),
                    "cart": [away(rng), away(rng), away(rng)], "dress": rng.choice(["float", "Float", "Rational"])}
             if with_field:
-                inp.update({"field": rng.choice(sorted(FIELDS)), "how": rng.choice(["expr", "lambda"])})
+                inp.update({"field": rng.choice(sorted(FIELDS)), "how": rng.choice(["expr", "lambda", "stored"])})
             return inp
         return gen
 
@@ -492,8 +537,9 @@ def _spec_checks(api):
             src, tgt, ts = (g["C"], g["Bc"][s], s) if direction == "root_to_child" else (g["Bc"][s], g["C"], 0)
             ss = 0 if direction == "root_to_child" else s
             bs = src.coord_system.base_scalars()
-            fld = api.ScalarField.from_expression(f(*bs), src) if inp["how"] == "expr" else \
-                api.ScalarField(lambda p_: f(p_.coordinate(0), p_.coordinate(1), p_.coordinate(2)), src)
+            fld = api.ScalarField.from_expression(f(*bs), src) if inp["how"] == "expr" else (
+                api.ScalarField(f(*bs), src) if inp["how"] == "stored" else
+                api.ScalarField(lambda p_: f(p_.coordinate(0), p_.coordinate(1), p_.coordinate(2)), src))
             with api.preserved("ScalarField.rebase", fld, tgt):
                 new = fld.rebase(tgt)
             # the physical point is given by its coordinates in the curvilinear (or rotated) child
@@ -774,6 +820,12 @@ def build(api: Api, gen: Gen):
             f"vector_magnitude in {n}", [U], "R", f"magnitude {SYSN[s]} u", "unfold magnitude. ")
         leg(f"scale_{n}", lambda k, a1, a2, a3, s=s: api.scale(s, k, [a1, a2, a3]),
             f"scale_vector in {n}", [("R", 0), ("V3", "u", [1, 2, 3])], "V3", f"scale {SYSN[s]} x0 u")
+    for s in (1, 2):
+        n = LOW[SYSN[s]]
+        leg(f"scale_{n}_len2", lambda k, a1, a2, s=s: (api.scale(s, k, [a1, a2]) + [0, 0, 0])[:3],
+            f"scale_vector(k, [a1, a2]) in {n}", [("R", 0), ("R", 1), ("R", 2)], "V3", f"scale {SYSN[s]} x0 (pad [x1; x2])")
+        leg(f"scale_{n}_len1", lambda k, a1, s=s: (api.scale(s, k, [a1]) + [0, 0, 0])[:3],
+            f"scale_vector(k, [a1]) in {n}", [("R", 0), ("R", 1)], "V3", f"scale {SYSN[s]} x0 (pad [x1])")
     # -- scalar fields -----------------------------------------------------------------------------------------
     fproof = "cbv [field_rebase transformation]. "
     for a in range(3):
@@ -793,6 +845,10 @@ def build(api: Api, gen: Gen):
                 leg(f"fieldrebase_{n}_{nb}_{via}",
                     lambda p, q, r, a=a, b=b, via=via: api.field_rebased_at(a, b, F, [p, q, r], "expr", via),
                     f"ScalarField in {n} .rebase({nb}) evaluated via {via}", [("F",), U], "R", mf, fproof)
+            for how in ("stored", "callable_object", "partial"):
+                leg(f"fieldrebase_{n}_{nb}_{how}",
+                    lambda p, q, r, a=a, b=b, how=how: api.field_rebased_at(a, b, F, [p, q, r], how, "point"),
+                    f"ScalarField({how}) in {n} .rebase({nb})", [("F",), U], "R", mf, fproof)
             leg(f"fieldrebase_{n}_{nb}_lambda",
                 lambda p, q, r, a=a, b=b: api.field_rebased_at(a, b, F, [p, q, r], "lambda", "point"),
                 f"ScalarField(lambda) in {n} .rebase({nb})", [("F",), U], "R", mf, fproof)
@@ -961,7 +1017,7 @@ def hist_gen(rng):
         op = rng.choice(["rebase", "rebase", "field", "dot", "magnitude", "scale"])
         st = {"op": op, "sys": a, "to": b, "u": list(gen_point(rng, a)), "v": list(gen_point(rng, a)), "k": away(rng)}
         if op == "field":
-            st.update({"u": list(gen_point(rng, b)), "field": rng.choice(sorted(FIELDS)), "how": rng.choice(["expr", "lambda"]),
+            st.update({"u": list(gen_point(rng, b)), "field": rng.choice(sorted(FIELDS)), "how": rng.choice(Api.HOWS),
                        "via": rng.choice(["point", "basis"])})
         seq.append(st)
     return seq
@@ -1123,7 +1179,7 @@ LEG_TO_SPEC = {
     "rot": ["graph_curv_to_root_cyl", "graph_curv_to_root_sph"], "fieldnamed": ["named_scalars_cart", "named_scalars_cyl", "named_scalars_sph"],
     "sph_cart": ["roundtrip_cart_sph_cart", "roundtrip_sph_cart_sph", "field_cart_sph", "dot_sph", "scale_sph"],
     "dot_cyl": ["dot_cyl"], "dot_sph": ["dot_sph"], "magnitude_cyl": ["magnitude_cyl"], "magnitude_sph": ["magnitude_sph"],
-    "scale_cyl": ["scale_cyl"], "scale_sph": ["scale_sph"],
+    "scale_cyl": ["scale_cyl", "arith_short_cyl"], "scale_sph": ["scale_sph", "arith_short_sph"],
 }
 
 
@@ -1134,7 +1190,7 @@ def related_specs(name, all_names):
             out += v
     if "field" in name:
         out += [n for n in all_names if n.startswith("field_") and any(p in name for p in (n[len("field_"):],))]
-    order = ["roundtrip", "dot", "magnitude", "scale", "field", "graph", "named", "point"]
+    order = ["roundtrip", "dot", "magnitude", "scale", "arith", "field", "graph", "named", "point"]
     prio = lambda n: (order.index(n.split("_")[0]) if n.split("_")[0] in order else 99, n)
     return sorted(set(out) or set(all_names), key=prio)
 
